@@ -6,6 +6,7 @@ import (
 	"fmt"
 	"os"
 	"strings"
+	"syscall"
 	"testing"
 
 	pb "github.com/openconfig/gnmi/proto/gnmi"
@@ -24,8 +25,25 @@ func TestMain(m *testing.M) {
 	if f := flag.Lookup("test.fuzzminimizetime"); f != nil && !explicit {
 		f.Value.Set("500ms")
 	}
+	captureWorkerStderr()
 	registerImpl()
 	os.Exit(m.Run())
+}
+
+// captureWorkerStderr: the fuzz engine starts its workers with no stderr, so the text of a
+// runtime fatal error in a worker (the one thing that says why it died) is lost. A worker
+// therefore points its own descriptor 2 at a file in the working directory; the driver quotes
+// it when a worker death cannot be reproduced from the announced inputs.
+func captureWorkerStderr() {
+	f := flag.Lookup("test.fuzzworker")
+	if f == nil || f.Value.String() != "true" {
+		return
+	}
+	out, err := os.OpenFile(fmt.Sprintf("worker-stderr.%d.txt", os.Getpid()), os.O_CREATE|os.O_WRONLY|os.O_APPEND, 0o644)
+	if err != nil {
+		return
+	}
+	syscall.Dup2(int(out.Fd()), 2)
 }
 
 func text(m proto.Message) string { return fmt.Sprint(m) }
